@@ -42,6 +42,15 @@ type recA[G any] struct {
 	Val   float64 `shp:"value"`
 	Name  string  `shp:"name"`
 }
+
+// recD is read from files written with the field-based API whose columns carry the Go field names: every tag names no
+// column, so the match has to come from the field name ("matched to struct fields by tag or name")
+type recD[G any] struct {
+	Shape G
+	Count int     `shp:"n"`
+	Val   float64 `shp:"value"`
+	Name  string  `shp:"label"`
+}
 type recB[G any] struct {
 	S string
 	G G
@@ -99,6 +108,9 @@ func gen(t *rapid.T) Case {
 	c.Shape = rapid.SampledFrom([]string{"Point", "MultiPoint", "LineString", "MultiLineString", "Polygon", "Bounds"}).Draw(t, "shape")
 	c.API = rapid.SampledFrom([]string{"struct", "struct", "fields"}).Draw(t, "api")
 	c.Layout = rapid.SampledFrom([]string{"A", "B", "C"}).Draw(t, "layout")
+	if c.API == "struct" && rapid.IntRange(0, 3).Draw(t, "crossapi") == 2 {
+		c.Layout = "D" // written with the field-based API, read into a struct whose tags match no column but whose field names do
+	}
 	c.DecodeAs = rapid.SampledFrom([]string{"concrete", "iface"}).Draw(t, "decodeas")
 	c.Reuse = rapid.Bool().Draw(t, "reuse")
 	n := rapid.IntRange(0, 8).Draw(t, "nrec")
@@ -174,6 +186,41 @@ func structRT[GE any, GD any](c Case, file string, conv func(vkit.GJ) GE) ([]got
 		var shared recA[GD]
 		for {
 			var fresh recA[GD]
+			rec := &fresh
+			if c.Reuse {
+				rec = &shared
+			}
+			if !d.DecodeRow(rec) {
+				break
+			}
+			g, _ := any(rec.Shape).(geom.Geom)
+			out = append(out, got{g: g, i: rec.Count, f: rec.Val, s: rec.Name})
+		}
+		if err := d.Error(); err != nil {
+			return out, "Decoder.Error: " + err.Error()
+		}
+	case "D":
+		st := map[string]goshp.ShapeType{"Point": goshp.POINT, "MultiPoint": goshp.MULTIPOINT, "LineString": goshp.POLYLINE, "MultiLineString": goshp.POLYLINE,
+			"Polygon": goshp.POLYGON, "Bounds": goshp.POLYGON}[c.Shape]
+		e, err := gshp.NewEncoderFromFields(file, st, goshp.NumberField("Count", 10), goshp.FloatField("Val", 30, 10), goshp.StringField("Name", 50))
+		if err != nil {
+			return nil, "NewEncoderFromFields: " + err.Error()
+		}
+		for k, r := range c.Recs {
+			if err := e.EncodeFields(r.G.Geom(), r.I, r.F, r.S); err != nil {
+				e.Close()
+				return nil, fmt.Sprintf("EncodeFields record %d: %v", k, err)
+			}
+		}
+		e.Close()
+		d, err := gshp.NewDecoder(file)
+		if err != nil {
+			return nil, "NewDecoder: " + err.Error()
+		}
+		defer d.Close()
+		var shared recD[GD]
+		for {
+			var fresh recD[GD]
 			rec := &fresh
 			if c.Reuse {
 				rec = &shared
@@ -414,7 +461,7 @@ func run(c Case) (v vkit.Verdict) {
 	}
 	if !fits {
 		v.Class("int_too_wide")
-		if c.API == "struct" && !strings.Contains(msg, "exceeds field length") {
+		if c.API == "struct" && c.Layout != "D" && !strings.Contains(msg, "exceeds field length") { // layout D writes with the field-based API, which is not claimed to refuse
 			return v.Fail("an integer wider than the 10-character field was not refused by Encode: %q", msg)
 		}
 		return v
@@ -463,7 +510,7 @@ func TestProp(t *testing.T) {
 		Rule: "rapid: files of 0-8 (10%: 9-40) records of one shape type (Point, MultiPoint, LineString, MultiLineString with 1-5 parts, Polygon with 1-5 rings closed or " +
 			"unclosed, *Bounds), finite coordinates from bit patterns; attributes: ints within the 10-character field (wider ones must be refused by Encode), float64 " +
 			"|v|<1e18, strings of 0-50 bytes (ASCII, inner blanks, quotes, UTF-8) without NUL and without leading/trailing blanks (not representable in DBF). Both APIs: " +
-			"struct-based with three record layouts (string last with tags, string first untagged with pointer records, two strings with mixed-case tags and names; geometry " +
+			"struct-based with three record layouts (string last with tags, string first untagged with pointer records, two strings with mixed-case tags and names; a fourth layout is written with the field-based API under the Go field names and read into a struct whose tags name no column, so that the match must come from the field name; geometry " +
 			"field decoded either as the concrete type or as geom.Geom; rows decoded into a fresh record or into one reused record variable) and field-based (NewEncoderFromFields/EncodeFields/DecodeRowFields, names matched in either case). " +
 			"Oracle: same number and order of records, coordinates bit-identical with line strings as parts, rings in stored order with unclosed rings closed, boxes as 5-vertex " +
 			"rectangles; ints equal, strings equal, floats within 5.1e-11; Decoder.Error nil. Non-trivial = >=2 records with string attributes of different lengths, or a multi-part geometry. Distinct by case hash.",
